@@ -1,0 +1,16 @@
+//go:build verif
+
+package luagc
+
+import "runtime"
+
+// VerifSetFinalizerSeam replaces the function used to register Go finalizers
+// (the package already routes runtime.SetFinalizer through a variable so that
+// it can be mocked).  nil restores runtime.SetFinalizer.
+func VerifSetFinalizerSeam(f func(obj interface{}, finalizer interface{})) {
+	if f == nil {
+		setFinalizer = runtime.SetFinalizer
+		return
+	}
+	setFinalizer = f
+}
